@@ -17,7 +17,7 @@ fn per_baseline(t: Tier) -> u64 {
 
 fn budget(t: Tier) -> u64 {
     match t {
-        Tier::Quick => 42 * per_baseline(t),
+        Tier::Quick => 49 * per_baseline(t),
         Tier::Thorough => 252 * per_baseline(t),
     }
 }
@@ -121,7 +121,7 @@ fn baseline(b: u64) -> Plan {
             plan.world.rcv_cap = 64;
             // what floods in: valid requests, or datagrams no worker will answer (another server's
             // SRV, garbage, empty, too short), or both alternating
-            let payload = ["valid", "wrong_srv", "mixed", "garbage", "empty", "short"][((b / 7 + b / 42) % 6) as usize];
+            let payload = ["valid", "wrong_srv", "mixed", "garbage", "empty", "short", "runts"][((b / 7) % 7) as usize];
             plan.params.insert(format!("flood_{}", payload), 1);
             if payload != "valid" {
                 // turning a datagram away is several times cheaper than answering one: an even
